@@ -148,6 +148,71 @@ pub fn free_port(also_tcp: bool) -> u16 {
     0
 }
 
+/// the server a monitor is currently judging: (pid, UDP port); used by helpers that run on
+/// threads without access to the ServerProc
+static CURRENT: std::sync::Mutex<Option<(u32, u16)>> = std::sync::Mutex::new(None);
+/// > 0 while some helper is deciding whether the server has settled: the harness's own load
+/// generators fall silent meanwhile (see `yield_to_judges`)
+pub static JUDGING: std::sync::atomic::AtomicU32 = std::sync::atomic::AtomicU32::new(0);
+
+pub fn set_current_server(v: Option<(u32, u16)>) {
+    *CURRENT.lock().unwrap() = v;
+}
+
+pub fn current_server() -> Option<(u32, u16)> {
+    *CURRENT.lock().unwrap()
+}
+
+/// called by load generators at the top of their loops
+pub fn yield_to_judges() {
+    while JUDGING.load(std::sync::atomic::Ordering::Relaxed) > 0 {
+        std::thread::sleep(Duration::from_millis(5));
+    }
+}
+
+pub fn pid_all_threads_sleeping(pid: u32) -> Option<bool> {
+    let rd = std::fs::read_dir(format!("/proc/{}/task", pid)).ok()?;
+    let mut any = false;
+    for e in rd.flatten() {
+        let s = std::fs::read_to_string(e.path().join("stat")).ok()?;
+        let rest = &s[s.rfind(')')? + 2..];
+        any = true;
+        if !rest.starts_with('S') {
+            return Some(false);
+        }
+    }
+    if any {
+        Some(true)
+    } else {
+        None
+    }
+}
+
+pub fn port_rx_queued(port: u16) -> Option<u64> {
+    let txt = std::fs::read_to_string("/proc/net/udp").ok()?;
+    let want = format!(":{:04X}", port);
+    let mut total = 0u64;
+    for line in txt.lines().skip(1) {
+        let cols: Vec<&str> = line.split_whitespace().collect();
+        if cols.len() >= 5 && cols[1].ends_with(&want) {
+            total += u64::from_str_radix(cols[4].split(':').nth(1)?, 16).ok()?;
+        }
+    }
+    Some(total)
+}
+
+/// see ServerProc::quiescent
+pub fn pid_quiescent(pid: u32, port: u16, window: Duration) -> bool {
+    let (s0, q0) = (pid_all_threads_sleeping(pid), port_rx_queued(port));
+    std::thread::sleep(window);
+    let (s1, q1) = (pid_all_threads_sleeping(pid), port_rx_queued(port));
+    match (s0, s1, q0, q1) {
+        (Some(true), Some(true), Some(a), Some(b)) => a == b,
+        (None, _, _, _) | (_, None, _, _) => true,
+        _ => false,
+    }
+}
+
 pub struct ServerProc {
     pub child: Child,
     pub cfg: SrvCfg,
@@ -315,15 +380,7 @@ impl ServerProc {
     /// elapsed time: on an overloaded machine a slow server shows runnable threads or a queue
     /// that is still draining.
     pub fn quiescent(&self, window: Duration) -> bool {
-        let (s0, q0) = (self.all_threads_sleeping(), self.rx_queued());
-        std::thread::sleep(window);
-        let (s1, q1) = (self.all_threads_sleeping(), self.rx_queued());
-        match (s0, s1, q0, q1) {
-            (Some(true), Some(true), Some(a), Some(b)) => a == b,
-            // an exited process is as quiet as it gets
-            (None, _, _, _) | (_, None, _, _) => true,
-            _ => false,
-        }
+        pid_quiescent(self.pid(), self.cfg.port, window)
     }
 
     /// wait (up to `cap`) until the server is quiescent for two consecutive windows
